@@ -340,6 +340,18 @@ class Ctx:
         hits = forbidden_tokens()
         if hits:
             self.proof_broken.append("forbidden tokens: " + "; ".join(hits[:10]))
+        if r.returncode == 0 and self.thorough:
+            # independent re-check of the compiled property modules (one module per call)
+            self.leanchecker = {}
+            for m in modules:
+                t1 = time.time()
+                try:
+                    rc = sh(["lake", "env", "leanchecker", m], cwd=LEAN_DIR, timeout=3600)
+                    self.leanchecker[m] = {"rc": rc.returncode, "s": round(time.time() - t1, 1)}
+                    if rc.returncode != 0:
+                        self.proof_broken.append("leanchecker rejects %s: %s" % (m, rc.stdout[-600:]))
+                except subprocess.TimeoutExpired:
+                    self.leanchecker[m] = {"rc": "timeout"}
         if r.returncode == 0:
             res, missing, text = audit_axioms(modules, theorems)
             self.axioms = res
@@ -463,6 +475,7 @@ class Ctx:
             "open_statements": self.open_statements,
             "known_findings_reported": sorted(seen_known),
             "lake_build_s": getattr(self, "lake_s", None),
+            "leanchecker": getattr(self, "leanchecker", None),
             "notes": self.notes,
         })
         if extra_cov:
